@@ -121,6 +121,10 @@ type c17SrvCase struct {
 	Hook    int    `json:"hook"`
 	Addr    string `json:"addr"`
 	Second  bool   `json:"second_datagram"`
+	// Stale: the session id was first seen in a lone fragment of ANOTHER datagram, addressed
+	// elsewhere, which never completes (lost sibling): the first datagram the hook can see is
+	// still this case's datagram, with this case's address
+	Stale bool `json:"stale_fragment_first,omitempty"`
 }
 
 func c17Payload(kind string, n int) []byte {
@@ -177,6 +181,9 @@ func c17RunSrvInner(c *c17SrvCase) (clause, detail string, aliased bool) {
 		for i := range frags {
 			order = append(order, i)
 		}
+	}
+	if c.Stale {
+		m.feed(&protocol.UDPMessage{SessionID: 9, PacketID: 55, FragID: 1, FragCount: 2, Addr: "stale.invalid:9", Data: []byte("lost sibling")})
 	}
 	for _, i := range order {
 		m.feed(frags[i])
@@ -248,7 +255,7 @@ func c17SrvEnumerate(sh *evidence.Shard) {
 	}
 	payloads := []pl{{"text", 0}, {"text", 1}, {"text", 5}, {"text", 24}, {"zeros", 24}, {"ff", 24}, {"quic-like", 200}, {"quic-like", 1200}, {"quic-like", 1230}, {"quic-like", 4000}}
 	p.Alphabet = map[string]any{"payload": fmt.Sprint(payloads), "fragments": "1, 2 or 3 fragments cut at {1, 2, n/2, n-1}; every arrival order",
-		"hook": []string{"inspect only", "inspect + rewrite host (port kept)", "refuse"}, "addr": []string{"1.2.3.4:443", "orig.example:8443"}, "second_datagram": []bool{false, true}}
+		"hook": []string{"inspect only", "inspect + rewrite host (port kept)", "refuse"}, "addr": []string{"1.2.3.4:443", "orig.example:8443"}, "second_datagram": []bool{false, true}, "session id first seen in a lone fragment of another datagram to another address": []bool{false, true}}
 	var item int64
 	for _, pay := range payloads {
 		n := pay.n
@@ -261,15 +268,16 @@ func c17SrvEnumerate(sh *evidence.Shard) {
 			enum.Permutations(nf, func(perm []int) bool {
 				for _, hook := range []int{c17HookInspect, c17HookRewrite, c17HookRefuse} {
 					for _, addr := range []string{"1.2.3.4:443", "orig.example:8443"} {
-						for _, second := range []bool{false, true} {
+						for si := 0; si < 4; si++ {
+							second, stale := si&1 == 1, si&2 == 2
 							item++
 							if !env.Mine(item) {
 								continue
 							}
-							c := &c17SrvCase{Payload: pay.kind, Len: n, Cuts: append([]int(nil), cuts...), Order: append([]int(nil), perm...), Hook: hook, Addr: addr, Second: second}
+							c := &c17SrvCase{Payload: pay.kind, Len: n, Cuts: append([]int(nil), cuts...), Order: append([]int(nil), perm...), Hook: hook, Addr: addr, Second: second, Stale: stale}
 							p.Evaluations++
 							clause, detail, aliased := c17RunSrv(c)
-							p.Class(pay.kind, n, len(cuts), fmt.Sprint(perm), hook, addr, second, clause)
+							p.Class(pay.kind, n, len(cuts), fmt.Sprint(perm), hook, addr, second, stale, clause)
 							if aliased {
 								p.Count("hook_slice_is_the_slice_written_next", 1)
 							}
